@@ -22,6 +22,7 @@ correspondence but their optimality theorems are not proved (see `PARTIAL` in
 import D3.Proofs.DistPolyTriangle
 import D3.Proofs.DistPolyConvex
 import D3.Proofs.DistPolyCircle
+import D3.Proofs.DistPolySegment
 import D3.Gen.Constants
 
 namespace D3
@@ -216,6 +217,39 @@ theorem pointToCircle_asIs_counterexample :
   refine ⟨res, ⟨1, 0, 0⟩, hres, ?_, hd, ?_⟩
   · constructor <;> norm_num [V3.dot_def, V3.normSq_def]
   · norm_num [V3.normSq_def, V3.dot_def]
+
+/-! ### line_segment_to_triangle (partial: conditional on `_line_to_triangle`) -/
+
+/- Full statement (not proved): for a triangle of non-zero area, `s ≠ e`, default epsilon,
+   `lineSegmentToTriangle s e a b c` returns `.ok res` with `res.cpLine` on the segment,
+   `res.cpPrim` in the triangle, `res.dist² = |cpLine − cpPrim|²` and no pair (segment point,
+   triangle point) closer than `res.dist`.  Missing: the same statement for `_line_to_triangle`
+   (plane-basis intersection test + "a line that misses the triangle is closest to an edge"). -/
+
+/-- **C11, `line_segment_to_triangle`, partial.** Whenever `_line_to_triangle` on the carrier line
+(unit direction computed by `convert_segment_to_line`) returns a result `r` that is feasible
+and globally optimal for (line, triangle), the segment routine — clamp the line parameter to
+`[0, length]` and call `point_to_triangle` on the end point — returns a result that is feasible
+and globally optimal for (segment, triangle).  Rests on `clamp_convex` and
+`point_to_triangle_opt`. -/
+theorem line_segment_to_triangle_opt_partial (s e a b c : V) (eps maxFloat : ℝ)
+    (hnd : 0 < V3.normSq (V3.cross (b - a) (c - a))) (hse : 0 < V3.normSq (e - s))
+    (r : LnRes ℝ)
+    (hr : lineToTriangleFull s (convertSegmentToLine s e).1 a b c eps maxFloat = .ok r)
+    (h1 : r.cpLine = s + r.t * (convertSegmentToLine s e).1)
+    (h2 : triangleSet a b c r.cpPrim) (h3 : 0 ≤ r.dist)
+    (h4 : r.dist * r.dist = V3.normSq (r.cpLine - r.cpPrim))
+    (h5 : ∀ (τ : ℝ) (y : V), triangleSet a b c y →
+      r.dist * r.dist ≤ V3.normSq ((s + τ * (convertSegmentToLine s e).1) - y)) :
+    ∃ res, lineSegmentToTriangle s e a b c eps maxFloat = .ok res ∧
+      segmentSet s e res.cpLine ∧ triangleSet a b c res.cpPrim ∧ 0 ≤ res.dist ∧
+      res.dist * res.dist = V3.normSq (res.cpLine - res.cpPrim) ∧
+      ∀ x y, segmentSet s e x → triangleSet a b c y → res.dist * res.dist ≤ V3.normSq (x - y) :=
+  lineSegmentToTriangle_of_line s e a b c eps maxFloat hnd hse r hr ⟨h1, h2, h3, h4, h5⟩
+
+/-- non-vacuity of the well-formedness hypotheses (the conditional hypotheses `h1`–`h5` are what
+the failing-input search checks numerically for `line_to_triangle` on every run) -/
+example : 0 < V3.normSq ((⟨1, 2, 3⟩ : V) - ⟨0, 0, 1⟩) := by norm_num [V3.normSq_def]
 
 end C11
 end D3
